@@ -42,7 +42,7 @@ def build(variant):
     fp = io.BytesIO(data)
     keep.append(fp)
     iso.add_fp(fp, len(data), '/G.;1', joliet_path='/g', udf_path='/g')
-    if variant == 'opened':
+    if variant in ('opened', 'edited'):
         img = env.write_image(iso)
         iso2 = env.PyCdlib()
         backing = io.BytesIO(img)
@@ -50,6 +50,18 @@ def build(variant):
         keep.append(iso)
         iso = iso2
         keep.append(backing)
+    if variant == 'edited':
+        # an opened image that was edited afterwards so that every file's *planned* location moved, and whose
+        # extents were then re-assigned (the data still lives at the original location)
+        iso.add_directory('/AAADIR', joliet_path='/aaadir', udf_path='/aaadir')
+        fp = io.BytesIO(b'early' * 1000)
+        keep.append(fp)
+        iso.add_fp(fp, 5000, '/AAA.;1', joliet_path='/aaa', udf_path='/aaa')
+        iso.rm_file('/G.;1')
+        fp = io.BytesIO(content_bytes(OTHER))
+        keep.append(fp)
+        iso.add_fp(fp, len(content_bytes(OTHER)), '/G.;1', joliet_path='/g', udf_path='/g')
+        iso.force_consistency()
     _IMAGES[variant] = (iso, keep)
     return _IMAGES[variant]
 
@@ -186,12 +198,14 @@ BOUNDS = {
 def tasks(tier):
     out = []
     for L, k in BOUNDS[tier]:
-        for variant in ('opened', 'new'):
+        for variant in ('opened', 'new', 'edited'):
             for n in LENGTHS:
+                if variant == 'edited' and (L > 2 or k > 1):
+                    continue
                 nops = len(stream_ops(n))
                 for first in range(nops):
                     out.append({'variant': variant, 'n': n, 'L': L, 'k': k, 'first': first})
-    for variant in ('opened', 'new'):
+    for variant in ('opened', 'new', 'edited'):
         for n in LENGTHS:
             out.append({'variant': variant, 'n': n, 'extract': True, 'max_bs': 2050 if tier == 'thorough' else 130})
     return out
@@ -296,7 +310,7 @@ def coverage(tier, r):
         'extractions': r.n.get('extractions', 0),
         'bound': [{'script_length': L, 'deviations': k, 'stream_alphabet': len(stream_ops(5)), 'deviation_kinds': len(DEVS)} for L, k in BOUNDS[tier]],
         'file_lengths': list(LENGTHS),
-        'variants': ['opened image', 'added but not yet written'],
+        'variants': ['opened image', 'added but not yet written', 'opened image edited and re-laid-out (scripts of length <= 2)'],
         'exhaustive': True,
         'explanation': 'every stream script up to the length bound, with every placement of up to k interfering operations, on every file length, '
                        'on an opened and on an unwritten image, compared step by step with io.BytesIO; plus whole-file extraction with every block size',
